@@ -331,7 +331,8 @@ fn rq_for(tag: &str) -> RqCfg {
     }
 }
 
-fn render_segs(segs: &Value) -> Vec<u8> {
+fn render_segs(segs: &Value, lf_only: bool) -> Vec<u8> {
+    let eol: &[u8] = if lf_only { b"\n" } else { b"\r\n" };
     let mut b: Vec<u8> = vec![];
     for s in segs.as_array().unwrap() {
         let g = |k: &str| s[k].as_str().unwrap_or("").to_string();
@@ -339,7 +340,8 @@ fn render_segs(segs: &Value) -> Vec<u8> {
         match s["t"].as_str().unwrap() {
             "status" => {
                 let reason = if rep > 0 { "r".repeat(rep) } else { g("reason") };
-                b.extend(format!("HTTP/{} {} {}\r\n", g("ver"), g("code"), reason).as_bytes());
+                b.extend(format!("HTTP/{} {} {}", g("ver"), g("code"), reason).as_bytes());
+                b.extend(eol);
             }
             "field" | "trailer" => {
                 let name = if rep > 0 && g("name") == "LONGNAME" { "a".repeat(rep) } else { g("name") };
@@ -352,10 +354,13 @@ fn render_segs(segs: &Value) -> Vec<u8> {
                     }
                     b.extend(piece.as_bytes());
                 }
-                b.extend(b"\r\n");
+                b.extend(eol);
             }
-            "blank" | "crlf" => b.extend(b"\r\n"),
-            "size" => b.extend(format!("{}{}\r\n", g("n"), g("ext")).as_bytes()),
+            "blank" | "crlf" => b.extend(eol),
+            "size" => {
+                b.extend(format!("{}{}", g("n"), g("ext")).as_bytes());
+                b.extend(eol);
+            }
             "data" => b.extend(payload(s["n"].as_u64().unwrap() as usize, 12)),
             "raw" => b.extend(g("bytes").as_bytes()),
             _ => {}
@@ -485,7 +490,7 @@ pub fn c12(o: &Opts, t: &mut Tracer) -> Value {
             if f["kind"] != "fault" {
                 continue;
             }
-            let stream = render_segs(&f["segs"]);
+            let stream = render_segs(&f["segs"], f["op"].as_str().map(|s| s.starts_with("lf-")).unwrap_or(false));
             let tag = f["req"].as_str().unwrap();
             t.sig(format!("fault/{}/{}/{}", f["op"].as_str().unwrap(), f["site"], tag));
             t.class(&format!("fault:{}", f["op"].as_str().unwrap()));
